@@ -94,7 +94,7 @@ struct C11 : Scenario {
             // With periodic renormalisation the continued run computes its first wake from the already renormalised
             // profile, the uninterrupted run from the profile before renormalising: an O(charge drift) difference that
             // is inherent in restarting, not a defect. The drift is measured on the reference run itself.
-            double allowed = (1e-5 + (x.cfg.renorm > 0 ? 20 * x.drift : 0)) * mx;
+            double allowed = 1e-5 * mx;   // (the wake is computed after renormalising, so the restart sees the same wake as the uninterrupted run)
             if (!(md <= allowed)) o.fail("C11.equivalence", what + ": final phase space differs from the uninterrupted run by " + fmt_g(md, 4) + " (max value " + fmt_g(mx, 4) + ", allowed " + fmt_g(allowed, 4) + ", measured charge drift " + fmt_g(x.drift, 3) + ")");
         }
     }
